@@ -392,6 +392,16 @@ Theorem c13_cfi_arm64_order_independent :
 Proof. exact a64_walk_order_independent. Qed.
 Print Assumptions c13_cfi_arm64_order_independent.
 
+(* ... and at the arm (32-bit) walker: r11/fp, r13/sp, r14/lr, r15/pc are pairs of names of one register, values that do not fit
+   32 bits are rejected *)
+Theorem c13_cfi_arm_order_independent :
+  forall (iter1 iter2 : list (bytes * option Z) -> list (bytes * option Z)) (written : list (bytes * option Z)) (callee : bytes -> Z),
+  Permutation (iter1 (cfi_map bytes_eqb written)) (cfi_map bytes_eqb written) ->
+  Permutation (iter2 (cfi_map bytes_eqb written)) (cfi_map bytes_eqb written) ->
+  arm_walk iter1 written callee = arm_walk iter2 written callee.
+Proof. exact (arch_walk_order_independent arm_tables). Qed.
+Print Assumptions c13_cfi_arm_order_independent.
+
 (* the rule that is applied for a register is the LAST one written for it (INIT line first, then the delta lines) *)
 Theorem c13_cfi_last_rule_wins :
   forall (K E : Type) (keqb : K -> K -> bool), (forall a b, keqb a b = true <-> a = b) ->
@@ -575,7 +585,10 @@ Example c13_nonvacuous_cfi_arm64 :
   let callee := (fun _ : bytes => 77) in
   a64_walk (fun m => m) written callee (b "fp") = Some 14 /\ a64_walk (@rev _) written callee (b "fp") = Some 14 /\
   a64_walk (@rev _) written callee (b "x19") = None /\ a64_walk (@rev _) written callee (b "x20") = Some 77 /\
-  a64_walk (@rev _) written callee (b "lr") = None /\ a64_memoize (b "x30") = Some (b "lr") /\ a64_memoize (b "x31") = None.
+  a64_walk (@rev _) written callee (b "lr") = None /\ a64_memoize (b "x30") = Some (b "lr") /\ a64_memoize (b "x31") = None /\
+  arm_walk (@rev _) [(b "r11", Some 5); (b "fp", Some 6); (b "r4", Some 4294967296); (b "r14", Some 9)] callee (b "fp") = Some 5 /\
+  arm_walk (@rev _) [(b "r11", Some 5); (b "fp", Some 6); (b "r4", Some 4294967296); (b "r14", Some 9)] callee (b "r4") = None /\
+  arm_walk (@rev _) [(b "r11", Some 5); (b "fp", Some 6); (b "r4", Some 4294967296); (b "r14", Some 9)] callee (b "lr") = Some 9.
 Proof. vm_compute. repeat split. Qed.
 
 (* the whole per-thread system on two adaptive walks whose modules answer after 2 and 0 suspensions, with the reporter's
